@@ -28,6 +28,9 @@ type ApprovalCfg struct {
 	Disconnect int `json:"disconnect"`
 	// late expiry: the timeout of these writes elapses in real time while the schedule runs (not before it starts)
 	Late map[string]bool `json:"late"`
+	// split timer: the timer callback is parked again where it draws the counter of its error result, the next step of
+	// the schedule runs inside that window, then the callback finishes (it decided when it ran first: same outcome)
+	SplitTimer int `json:"splittimer"` // number of schedule steps that run inside the window (0 = no split)
 }
 type PStep struct {
 	K string `json:"k"`
@@ -35,20 +38,22 @@ type PStep struct {
 	C int    `json:"c"`
 }
 type ApprovalLine struct {
-	Verdict   map[string][]string `json:"verdict"`
-	Expires   map[string]bool     `json:"expires"`
-	Sched     []string            `json:"sched"`
-	PSched    []PStep             `json:"psched"`
-	Unsafe    bool                `json:"unsafe"`
-	Realised  bool                `json:"realised"`
-	Blocked   int                 `json:"blocked"`
-	Outcomes  map[string][]string `json:"outcomes"`
-	Presented map[string][]int    `json:"presented"`
-	Values    map[string]int      `json:"values"`
-	Data      int                 `json:"data"`
-	Panic     string              `json:"panic"`
-	AfterDisc int                 `json:"afterdisc"` // datagrams written to the connection after it was removed
-	Disconnect int                `json:"disconnect"`
+	Verdict    map[string][]string `json:"verdict"`
+	Expires    map[string]bool     `json:"expires"`
+	Sched      []string            `json:"sched"`
+	PSched     []PStep             `json:"psched"`
+	Unsafe     bool                `json:"unsafe"`
+	Realised   bool                `json:"realised"`
+	Blocked    int                 `json:"blocked"`
+	Outcomes   map[string][]string `json:"outcomes"`
+	Presented  map[string][]int    `json:"presented"`
+	Values     map[string]int      `json:"values"`
+	Data       int                 `json:"data"`
+	Panic      string              `json:"panic"`
+	AfterDisc  int                 `json:"afterdisc"` // datagrams written to the connection after it was removed
+	Disconnect int                 `json:"disconnect"`
+	SplitTimer int                 `json:"splittimer"`
+	Late       map[string]bool     `json:"late"`
 }
 
 func parseStep(name string) PStep {
@@ -81,7 +86,7 @@ func approvalReplay(args []string) {
 	sc.Buffer(make([]byte, 1<<20), 1<<26)
 	n := 0
 	for sc.Scan() {
-		c := ApprovalCfg{Disconnect: -1}
+		c := ApprovalCfg{Disconnect: -1, Late: map[string]bool{}}
 		must(json.Unmarshal(sc.Bytes(), &c))
 		must(enc.Encode(runApproval(topo, c)))
 		n++
@@ -90,7 +95,7 @@ func approvalReplay(args []string) {
 }
 
 func runApproval(topo *Topo, c ApprovalCfg) ApprovalLine {
-	line := ApprovalLine{Verdict: c.Verdict, Expires: c.Expires, Sched: c.Sched, Unsafe: c.Unsafe, Blocked: -1, Realised: true, Disconnect: c.Disconnect,
+	line := ApprovalLine{Verdict: c.Verdict, Expires: c.Expires, Sched: c.Sched, Unsafe: c.Unsafe, Blocked: -1, Realised: true, Disconnect: c.Disconnect, SplitTimer: c.SplitTimer, Late: c.Late,
 		Outcomes: map[string][]string{}, Presented: map[string][]int{}, Values: map[string]int{}}
 	for _, n := range c.Sched {
 		line.PSched = append(line.PSched, parseStep(n))
@@ -109,8 +114,8 @@ func runApproval(topo *Topo, c ApprovalCfg) ApprovalLine {
 	sort.Strings(writes)
 	ncb := len(c.Verdict[writes[0]])
 	var mu sync.Mutex
-	msgs := map[uint64]*api.Message{}    // counter -> message presented
-	presented := map[uint64][]int{}      // counter -> invocations per callback
+	msgs := map[uint64]*api.Message{} // counter -> message presented
+	presented := map[uint64][]int{}   // counter -> invocations per callback
 	for cb := 0; cb < ncb; cb++ {
 		cb := cb
 		_ = S1.AddWriteApprovalCallback(func(msg *api.Message) {
@@ -139,7 +144,11 @@ func runApproval(topo *Topo, c ApprovalCfg) ApprovalLine {
 		return ""
 	}
 	for _, w := range writes {
-		sched.Add("t:"+w, []string{"WriteApproval.timerFired"}, nil)
+		if c.SplitTimer > 0 {
+			sched.Add("t:"+w, []string{"WriteApproval.timerFired", "Sender.counter"}, nil)
+		} else {
+			sched.Add("t:"+w, []string{"WriteApproval.timerFired"}, nil)
+		}
 	}
 	// the writes arrive (one after the other), each with its own timeout
 	for i, w := range writes {
@@ -201,8 +210,27 @@ func runApproval(topo *Topo, c ApprovalCfg) ApprovalLine {
 		}
 	}
 	disconnected := false
+	var midTimer *sproc // a timer callback parked inside its send
+	midLeft := 0
+	finishTimer := func() {
+		if midTimer == nil {
+			return
+		}
+		before := runtime.NumGoroutine()
+		midTimer.parked = ""
+		midTimer.gate <- struct{}{}
+		midTimer.done = true
+		midTimer = nil
+		deadline := time.Now().Add(500 * time.Millisecond)
+		for runtime.NumGoroutine() >= before && time.Now().Before(deadline) {
+			time.Sleep(100 * time.Microsecond)
+		}
+	}
 	for i, name := range c.Sched {
 		if c.Disconnect == i {
+			// (a send that has drawn its counter is in flight: it completes before the connection is removed - the
+			// property is read for sends that start after the removal, as C16 states it for refreshes in flight)
+			finishTimer()
 			s.dev.RemoveRemoteDeviceConnection(p.ski)
 			p.w.drain()
 			disconnected = true
@@ -211,6 +239,7 @@ func runApproval(topo *Topo, c ApprovalCfg) ApprovalLine {
 			if c.Late[strings.TrimPrefix(name, "t:")] {
 				sched.WaitArrive(name, 500*time.Millisecond) // the timeout elapses now, in real time
 			}
+			finishTimer()
 			before := runtime.NumGoroutine()
 			sp := sched.procs[name]
 			if sp == nil || sp.parked == "" {
@@ -219,6 +248,22 @@ func runApproval(topo *Topo, c ApprovalCfg) ApprovalLine {
 			}
 			sp.parked = ""
 			sp.gate <- struct{}{}
+			if c.SplitTimer > 0 {
+				// runs until it draws the counter of its error result (parks again) or ends without sending
+				deadline := time.Now().Add(500 * time.Millisecond)
+				for sp.parked == "" && runtime.NumGoroutine() >= before && time.Now().Before(deadline) {
+					select {
+					case at := <-sp.arrive:
+						sp.parked = at
+					default:
+						time.Sleep(100 * time.Microsecond)
+					}
+				}
+				if sp.parked != "" {
+					midTimer, midLeft = sp, c.SplitTimer
+					continue
+				}
+			}
 			sp.done = true
 			deadline := time.Now().Add(500 * time.Millisecond)
 			for runtime.NumGoroutine() >= before && time.Now().Before(deadline) {
@@ -226,12 +271,18 @@ func runApproval(topo *Topo, c ApprovalCfg) ApprovalLine {
 			}
 			continue
 		}
-		if _, ok := sched.Step(name); !ok {
+		_, ok := sched.Step(name)
+		if midLeft--; midLeft <= 0 {
+			finishTimer()
+		}
+		if !ok {
 			line.Realised, line.Blocked = false, i
 			break
 		}
 	}
+	finishTimer()
 	if c.Disconnect >= len(c.Sched) {
+		finishTimer()
 		s.dev.RemoveRemoteDeviceConnection(p.ski)
 		p.w.drain()
 		disconnected = true
